@@ -12,7 +12,7 @@ from harness.props import C02
 
 ID = "C05json"
 SUITE = "json"
-COQ_TARGETS = ["JsonDoc.vo", "Json.vo", "JsonProofs.vo", "JsonProofs2.vo", "JsonLex.vo", "CorrC02.vo", "CorrC05json.vo", "Props/C02.vo", "PropsJson.vo"]
+COQ_TARGETS = ["JsonDoc.vo", "Json.vo", "JsonProofs.vo", "JsonProofs2.vo", "JsonLoadProofs.vo", "JsonLex.vo", "CorrC02.vo", "CorrC05json.vo", "Props/C02.vo", "PropsJson.vo"]
 CORR_IMPORTS = "Base Heap Schema Canon Reach JsonDoc Json CorrC02 CorrC05json"
 OPEN_SCOPES = ["string_scope", "list_scope", "Z_scope"]
 CASE_TYPE, CHECK_FN, PREMISES_FN = "case05", "check_case05", "premises05"
